@@ -4,6 +4,7 @@ import (
 	"bytes"
 	"encoding/json"
 	"fmt"
+	"io"
 	"net/http"
 
 	"github.com/rs/zerolog/log"
@@ -42,7 +43,14 @@ func DecodeValid[T Validator](r *http.Request) (T, error) {
 			return v, fmt.Errorf("decode json: %w", err)
 		}
 	case "application/msgpack":
-		dec := msgpack.NewDecoder(r.Body)
+		body, err := io.ReadAll(r.Body)
+		if err != nil {
+			return v, fmt.Errorf("read msgpack: %w", err)
+		}
+		if _, err := MsgpackDepth(body); err != nil {
+			return v, fmt.Errorf("decode msgpack: %w", err)
+		}
+		dec := msgpack.NewDecoder(bytes.NewReader(body))
 		// This allows the message pack decoder to use the json struct tags.
 		dec.SetCustomStructTag("json")
 		if err := dec.Decode(&v); err != nil {
